@@ -129,6 +129,15 @@ func witness(id int) (wuCase, bool) {
 		c := wuCase{ID: id, Name: "empty-token-range-steady-demand", T: fl(cfg[0]), Period: uint32(cfg[1]), CF: uint32(cfg[2])}
 		c.Ops = steady(c.Ops, t+10, 30, 1, 1)
 		return c, true
+	case 17: // finding F6: Throttling rule, threshold 10, cold factor 2 (cold rate 5/s), 12 evenly spaced requests per second:
+		// the pacing interval of 180-200 ms admits every third request (4 per second < 5), the bucket is refilled every second
+		c := wuCase{ID: id, Name: "F6-throttling-grid-below-cold-rate", T: 10, Period: 3, CF: 2, Throttling: true}
+		for s := 0; s < 21; s++ {
+			for j := 0; j < 12; j++ {
+				c.Ops = append(c.Ops, wreq{Ms: t + 10 + uint64(s)*1000 + uint64(j)*83, B: 1})
+			}
+		}
+		return c, true
 	case 12: // the same ordinary warm-up carried by a Throttling rule: pacing at the warm-up rate, must warm up as well
 		c := wuCase{ID: id, Name: "ordinary-throttling", T: 12, Period: 3, CF: 3, Throttling: true}
 		c.Ops = steady(c.Ops, t+10, 20, 14, 1)
@@ -260,13 +269,17 @@ func runWu(c wuCase, clk *vclock.Clock) wuObs {
 // ---- monitor ------------------------------------------------------------------------------
 
 const (
-	sigD9      = "warmup-empty-token-range-nan-threshold-admits-all" // repaired in /repo; not listed any more
-	sigNoCold  = "warmup-empty-token-range-no-cold-phase"
-	sigNaNThr  = "nan-threshold-accepted-by-isvalidrule" // repaired in /repo 1e1f6ae; not listed: a regression is a violation
-	sigInfThr  = "infinite-threshold-not-finite-allowed" // not listed: +Inf gives MaxFloat64 today
-	sigD10     = "warmup-threshold-below-coldfactor-starved"
-	sigD10eq   = "warmup-threshold-equals-coldfactor-rounding-starved"
-	sigStuck   = "warmup-stuck-at-warning-line-never-cools"
+	sigD9     = "warmup-empty-token-range-nan-threshold-admits-all" // repaired in /repo; not listed any more
+	sigNoCold = "warmup-empty-token-range-no-cold-phase"
+	sigNaNThr = "nan-threshold-accepted-by-isvalidrule" // repaired in /repo 1e1f6ae; not listed: a regression is a violation
+	sigInfThr = "infinite-threshold-not-finite-allowed" // not listed: +Inf gives MaxFloat64 today
+	sigD10    = "warmup-threshold-below-coldfactor-starved"
+	sigD10eq  = "warmup-threshold-equals-coldfactor-rounding-starved"
+	sigStuck  = "warmup-stuck-at-warning-line-never-cools"
+	// C11-F6: a Throttling warm-up rule admits on the grid of its pacing interval; when that grid admits fewer
+	// requests per second than the cold rate threshold/coldFactor the calculator takes the resource for idle and
+	// refills the bucket every second: it drains only by what is admitted and never gets below the warning line
+	sigGrid    = "warmup-throttling-pacing-grid-admits-below-cold-rate-never-warms-up"
 	starveSecs = 20
 )
 
@@ -453,7 +466,31 @@ func monitorWu(c wuCase, o wuObs, rep *emit.Report) (nontrivial bool) {
 			// the bucket hovers around the warning line: the full threshold must have been reached in the run
 			// (the existential form of C11_wu_reaches_full), it need not hold at every later instant
 			if c.Throttling && lastFull < satRunStart {
-				fail(i, "C11_wu_reaches_full", "throttling-rule-never-warmed-up-under-sustained-demand", "%d saturated seconds since request %d, the allowed value never reached the threshold %v (now %v, stored=%d warningToken=%d)", satLen, satRunStart, T, a, o.Stored[i], W)
+				// which regime?  (own recomputation on the trace)  the bucket was drained below maxToken at least once
+				// in the run - the statistic is alive, admissions are consumed - and in every second of the run fewer
+				// tokens were admitted than the cold rate uint32(threshold)/coldFactor, which is the calculator's
+				// refill condition: the recorded finding F6.  Anything else (a bucket that never leaves maxToken although
+				// requests are admitted, or a pass rate at or above the cold rate that still does not drain it) is not.
+				drained, maxPerSec := false, int64(0)
+				perSec := map[uint64]int64{}
+				for j := satRunStart; j <= i; j++ {
+					if o.Stored[j] < M {
+						drained = true
+					}
+					if o.Adm[j] {
+						perSec[c.Ops[j].Ms/1000] += int64(c.Ops[j].B)
+					}
+				}
+				for _, n := range perSec {
+					if n > maxPerSec {
+						maxPerSec = n
+					}
+				}
+				sig := "throttling-rule-never-warmed-up-under-sustained-demand"
+				if drained && maxPerSec > 0 && maxPerSec < int64(uint32(T))/cf {
+					sig = sigGrid
+				}
+				fail(i, "C11_wu_reaches_full", sig, "%d saturated seconds since request %d, the allowed value never reached the threshold %v (now %v, stored=%d warningToken=%d maxToken=%d; at most %d tokens admitted per second, cold rate %d)", satLen, satRunStart, T, a, o.Stored[i], W, M, maxPerSec, int64(uint32(T))/cf)
 			}
 		}
 		// 5. a steady single-token demand is not starved
